@@ -40,6 +40,8 @@ theorem fuel_mono (p : Program) {n m : Nat} (h : n ≤ m) {l : Option Nat} {r : 
     (hv : pairResult n p l r = some v) : pairResult m p l r = some v :=
   pairResult_mono p h hv
 
+example : pairResult 1 exFi (some 102) 105 = some (some ([], ⟨12, true⟩)) := by decide
+
 /-- Pigeonhole: a chain of dependencies longer than the number of candidate pairs repeats a
 pair, so the fixed fuel `bound p` decides: M reports the pair as looping (leaves it out of the
 table) iff its evaluation fails with *every* amount of fuel. -/
@@ -132,6 +134,10 @@ theorem table_pair (p : Program) (l : Option Nat) (r : Nat) (rep : Repl)
     obtain ⟨f2, hf2⟩ := interp_complete p (hI hs)
     exact interp_det p h' hf2
   exact interp_sound p hcont
+
+example : table exFi (some 102) 105 = some ([], ⟨12, true⟩) := by decide
+example : interp exFi 5 [.ch 12, .ch 98] = some [.glyph 12, .glyph 98] := by decide
+example : interp exFi 5 [.ch 102, .ch 105, .ch 98] = some [.glyph 12, .glyph 98] := by decide
 
 /-- **Compiled programs equal direct interpretation.** For every program all of whose pairs
 resolve (`acyclicB`, decidable; the compiler reports no infinite loop) and every non-empty
